@@ -426,7 +426,15 @@ fn sem_order_one<A: Mk + Clone, B: Mk, N: ArrayLength>(op: &str) -> Option<Strin
             "map" => { let a: GenericArray<A, N> = GenericArray::generate(A::mk); let m: GenericArray<B, N> = a.map(|x| { let k = log.borrow().len(); log.borrow_mut().push(x.id()); B::mk(k) }); check_out::<B, N>(&m) }
             "ref.map" => { let a: GenericArray<A, N> = GenericArray::generate(A::mk); let m: GenericArray<B, N> = (&a).map(|x| { let k = log.borrow().len(); log.borrow_mut().push(x.id()); B::mk(k) }); check_out::<B, N>(&m) }
             "zip" => { let a: GenericArray<A, N> = GenericArray::generate(A::mk); let b: GenericArray<A, N> = GenericArray::generate(A::mk);
-                       let m: GenericArray<B, N> = a.zip(b, |x, y| { let k = log.borrow().len(); log.borrow_mut().push(if x.id() == y.id() { x.id() } else { Some(usize::MAX) }); B::mk(k) }); check_out::<B, N>(&m) }
+                       let m: GenericArray<B, N> = a.zip(b, |x, y| { let k = log.borrow().len(); log.borrow_mut().push(if x.id() == y.id() { x.id() } else { Some(usize::MAX) }); B::mk(k) });
+                       if let Some(e) = check_out::<B, N>(&m) { return Some(e); }
+                       // operands of two different kinds (with / without drop glue, sized / zero-sized): left A, right B
+                       let before = log.borrow().len();
+                       let a: GenericArray<A, N> = GenericArray::generate(A::mk); let b: GenericArray<B, N> = GenericArray::generate(B::mk);
+                       let m: GenericArray<u32, N> = a.zip(b, |x, y| { let k = log.borrow().len() - before; let (xi, yi) = (x.id().unwrap_or(k), y.id().unwrap_or(k)); log.borrow_mut().push(Some(if xi == yi { xi + before - before } else { usize::MAX })); k as u32 });
+                       for (i, v) in m.iter().enumerate() { if *v as usize != i { return Some(format!("mixed-kind zip: slot {i} holds the result of call #{v}")); } }
+                       let l = log.borrow(); for (k, v) in l[before..].iter().enumerate() { if *v != Some(k) { return Some(format!("mixed-kind zip (left {} / right {}): call #{k} received elements of another index", A::NAME, B::NAME)); } }
+                       drop(l); log.borrow_mut().truncate(before); None }
             "fold" => { let a: GenericArray<A, N> = GenericArray::generate(A::mk); let c = a.fold(0usize, |acc, x| { log.borrow_mut().push(x.id()); acc + 1 }); if c != n { Some(format!("fold returned {c} steps")) } else { None } }
             "clone" => { let a: GenericArray<A, N> = GenericArray::generate(A::mk); let c = a.clone(); for (i, x) in c.iter().enumerate() { if let Some(v) = x.id() { if v != i { return Some(format!("clone[{i}] = {v}")); } } } None }
             _ => None,
@@ -451,6 +459,7 @@ fn check_out<B: Mk, N: ArrayLength>(a: &GenericArray<B, N>) -> Option<String> {
 fn sem_order<N: ArrayLength>(op: &str) -> Option<String> {
     sem_order_one::<u32, u32, N>(op).or_else(|| sem_order_one::<(), u32, N>(op)).or_else(|| sem_order_one::<u32, (), N>(op)).or_else(|| sem_order_one::<(), (), N>(op))
         .or_else(|| sem_order_one::<Zd, Zd, N>(op)).or_else(|| sem_order_one::<String, String, N>(op)).or_else(|| sem_order_one::<Zd, String, N>(op)).or_else(|| sem_order_one::<String, Zd, N>(op))
+        .or_else(|| sem_order_one::<String, u32, N>(op)).or_else(|| sem_order_one::<u32, String, N>(op))
 }
 
 /// try_from_iter / from_iter: Ok exactly when the source yields exactly N items (truthful exact and absent size hints; sized and zero-sized items)
